@@ -167,7 +167,38 @@ func ruleCC7() Rule {
 	return Rule{ID: "CC7", Kind: "must", Floor: 2,
 		Doc: "every path through the lexers' error-recording functions closes the cancel channel, except the path taken for the parser's `unexpected EOF` after the lexer has already stopped; otherwise a lexer blocked in emit is never released and the join in ParseCommands/Eval waits forever",
 		Run: func(c *Ctx, rr *core.RuleResult) {
-			for _, name := range []string{"parser.(*lexer).error", "interp.(*lexer).Error"} {
+			names := []string{"parser.(*lexer).error", "interp.(*lexer).Error"}
+			// further functions that store into a lexer's error slot and are called from outside (lexer-side recorders)
+			for _, pkg := range []string{"parser", "interp"} {
+				errF := c.fieldVar(pkg, "lexer", "err")
+				for _, g := range c.funcsOfPkg(pkg, false) {
+					if g.Decl == nil || g.Name == names[0] || g.Name == names[1] {
+						continue
+					}
+					stores, locks := false, false
+					gi := g.Info()
+					g.OwnNodes(func(n ast.Node) bool {
+						if as, ok := n.(*ast.AssignStmt); ok {
+							for _, l := range as.Lhs {
+								if id, ok := ast.Unparen(l).(*ast.SelectorExpr); ok && core.FieldOf(gi, id) == errF {
+									if x, ok := ast.Unparen(id.X).(*ast.Ident); ok && isRecv(g, gi.Uses[x]) {
+										stores = true
+									}
+								}
+							}
+						}
+						if call, ok := n.(*ast.CallExpr); ok && calleeName(gi, call) == "sync.(*Mutex).Lock" {
+							locks = true
+						}
+						return true
+					})
+					// a recorder takes the lock itself; read() records reader errors and is covered by EF1
+					if stores && locks && g.Short != "(*lexer).read" {
+						names = append(names, g.Name)
+					}
+				}
+			}
+			for _, name := range names {
 				f := c.mustFn(rr, name)
 				if f == nil {
 					continue
@@ -175,9 +206,52 @@ func ruleCC7() Rule {
 				info := f.Info()
 				cancel := c.fieldVar(f.Pkg.Name, "lexer", "cancel")
 				fl := core.NewFlow(f)
+				// a helper whose whole body is the close-once idiom counts as the close
+				closesAlways := func(call *ast.CallExpr) bool {
+					fo := core.StaticCallee(info, call)
+					if fo == nil {
+						return false
+					}
+					g := c.P.FuncOf(fo)
+					if g == nil || g.Decl == nil || len(g.Body.List) == 0 {
+						return false
+					}
+					sel, ok := g.Body.List[len(g.Body.List)-1].(*ast.SelectStmt)
+					if !ok {
+						return false
+					}
+					for _, st := range g.Body.List[:len(g.Body.List)-1] {
+						stop := false
+						ast.Inspect(st, func(x ast.Node) bool {
+							switch x.(type) {
+							case *ast.ReturnStmt, *ast.BranchStmt:
+								stop = true
+							}
+							return true
+						})
+						if stop {
+							return false
+						}
+					}
+					has := false
+					gi := g.Info()
+					ast.Inspect(sel, func(x ast.Node) bool {
+						if cl, ok := x.(*ast.CallExpr); ok && isBuiltinCall(gi, cl, "close") && len(cl.Args) == 1 && core.FieldOf(gi, cl.Args[0]) == cancel {
+							has = true
+						}
+						return true
+					})
+					return has
+				}
 				closed := fl.MustSeen(false, func(n ast.Node) bool {
 					call, ok := n.(*ast.CallExpr)
-					return ok && isBuiltinCall(info, call, "close") && len(call.Args) == 1 && core.FieldOf(info, call.Args[0]) == cancel
+					if !ok {
+						return false
+					}
+					if isBuiltinCall(info, call, "close") && len(call.Args) == 1 && core.FieldOf(info, call.Args[0]) == cancel {
+						return true
+					}
+					return closesAlways(call)
 				}, nil)
 				// a select whose receive arm is the "already closed" alternative also counts:
 				// treat reaching the select statement that contains the close as the event
@@ -227,7 +301,13 @@ func ruleCC7() Rule {
 				if len(f.Body.List) > 0 {
 					last := f.Body.List[len(f.Body.List)-1]
 					key := f.Name + "|final cancel"
-					if sel[last] {
+					viaHelper := false
+					if es, ok := last.(*ast.ExprStmt); ok {
+						if call, ok := es.X.(*ast.CallExpr); ok && closesAlways(call) {
+							viaHelper = true
+						}
+					}
+					if sel[last] || viaHelper {
 						rr.OK(f, key, last.Pos(), "select-close", "the function ends with the select that closes the cancel channel unless it is already closed")
 					} else if _, isRet := last.(*ast.ReturnStmt); !isRet {
 						rr.Bad(f, key, last.Pos(), "the function does not end with the select/close of the cancel channel")
@@ -1031,95 +1111,158 @@ func isRecv(f *core.Func, obj types.Object) bool {
 
 func ruleER1() Rule {
 	return Rule{ID: "ER1", Kind: "must", Floor: 2,
-		Doc: "in the parser lexer's error function every way of not recording the reported message - an early return, or the untaken side of a conditional store - is conditional on `l.err != nil`: a syntax error is discarded only when another error is already recorded, so an ill-formed program can never come back with a nil error",
+		Doc: "in the parser lexer's error function (and the helper it records through) every way of not recording the reported message - an early return, or the untaken side of a conditional store - is conditional on `l.err != nil`: a syntax error is discarded only when another error is already recorded, so an ill-formed program can never come back with a nil error",
 		Run: func(c *Ctx, rr *core.RuleResult) {
-			f := c.mustFn(rr, "parser.(*lexer).error")
-			if f == nil {
+			top := c.mustFn(rr, "parser.(*lexer).error")
+			if top == nil {
 				return
 			}
-			info := f.Info()
 			errF := c.fieldVar("parser", "lexer", "err")
-			isStore := func(n ast.Node) bool {
-				as, ok := n.(*ast.AssignStmt)
-				if !ok {
-					return false
-				}
-				for _, l := range as.Lhs {
-					if core.FieldOf(info, l) == errF {
-						return true
-					}
-				}
-				return false
-			}
-			// atoms of cond under the given polarity
-			var atoms func(e ast.Expr, pos bool, out *[]guard)
-			atoms = func(e ast.Expr, pos bool, out *[]guard) {
-				e = ast.Unparen(e)
-				if u, ok := e.(*ast.UnaryExpr); ok && u.Op == token.NOT {
-					atoms(u.X, !pos, out)
-					return
-				}
-				if be, ok := e.(*ast.BinaryExpr); ok {
-					if (be.Op == token.LAND && pos) || (be.Op == token.LOR && !pos) {
-						atoms(be.X, pos, out)
-						atoms(be.Y, pos, out)
-						return
-					}
-				}
-				*out = append(*out, guard{e, pos})
-			}
-			recorded := func(gs []guard) bool {
-				for _, g := range gs {
-					be, ok := ast.Unparen(g.cond).(*ast.BinaryExpr)
-					if !ok || core.FieldOf(info, be.X) != errF || !isNilIdent(info, be.Y) {
-						continue
-					}
-					if (be.Op == token.NEQ && g.pos) || (be.Op == token.EQL && !g.pos) {
-						return true
-					}
-				}
-				return false
-			}
-			stored := core.NewFlow(f).MustSeen(false, isStore, nil)
-			n := 0
-			f.OwnNodes(func(x ast.Node) bool {
-				switch x := x.(type) {
-				case *ast.ReturnStmt:
-					if stored[x] {
-						return true
-					}
-					n++
-					key := f.Name + "|message dropped by early return"
-					if recorded(guardsOf(c.P, x, nil)) {
-						rr.OK(f, key, x.Pos(), "already-recorded", "returns without recording only when l.err != nil")
-					} else {
-						rr.Bad(f, key, x.Pos(), "the reported message is discarded on a path where no error is known to be recorded: the parse can end with a nil error although the parser rejected the input")
-					}
-				case *ast.IfStmt:
-					hasStore := false
-					for _, st := range x.Body.List {
-						if isStore(st) {
-							hasStore = true
+			storesDirectly := func(g *core.Func) bool {
+				found := false
+				gi := g.Info()
+				g.OwnNodes(func(n ast.Node) bool {
+					if as, ok := n.(*ast.AssignStmt); ok {
+						for _, l := range as.Lhs {
+							if core.FieldOf(gi, l) == errF {
+								found = true
+							}
 						}
 					}
-					if !hasStore || x.Else != nil {
-						return true
-					}
-					n++
-					key := f.Name + "|message dropped by conditional store"
-					var gs []guard
-					atoms(x.Cond, false, &gs)
-					gs = append(gs, guardsOf(c.P, x, nil)...)
-					if recorded(gs) {
-						rr.OK(f, key, x.Pos(), "already-recorded", "the store is skipped only when l.err != nil")
-					} else {
-						rr.Bad(f, key, x.Pos(), "the store of the new error can be skipped while l.err may be nil")
+					return true
+				})
+				return found
+			}
+			// the recorder region: error itself and the helpers it stores through
+			region := []*core.Func{top}
+			helper := map[*core.Func]bool{}
+			top.OwnNodes(func(n ast.Node) bool {
+				if call, ok := n.(*ast.CallExpr); ok {
+					if fo := core.StaticCallee(top.Info(), call); fo != nil {
+						if g := c.P.FuncOf(fo); g != nil && g != top && g.Decl != nil && storesDirectly(g) && !helper[g] {
+							helper[g] = true
+							region = append(region, g)
+						}
 					}
 				}
 				return true
 			})
+			n := 0
+			for _, f := range region {
+				info := f.Info()
+				isStore := func(n ast.Node) bool {
+					switch x := n.(type) {
+					case *ast.AssignStmt:
+						for _, l := range x.Lhs {
+							if core.FieldOf(info, l) == errF {
+								return true
+							}
+						}
+					case *ast.CallExpr:
+						if fo := core.StaticCallee(info, x); fo != nil && helper[c.P.FuncOf(fo)] && f == top {
+							return true
+						}
+					}
+					return false
+				}
+				var atoms func(e ast.Expr, pos bool, out *[]guard)
+				atoms = func(e ast.Expr, pos bool, out *[]guard) {
+					e = ast.Unparen(e)
+					if u, ok := e.(*ast.UnaryExpr); ok && u.Op == token.NOT {
+						atoms(u.X, !pos, out)
+						return
+					}
+					if be, ok := e.(*ast.BinaryExpr); ok {
+						if (be.Op == token.LAND && pos) || (be.Op == token.LOR && !pos) {
+							atoms(be.X, pos, out)
+							atoms(be.Y, pos, out)
+							return
+						}
+					}
+					*out = append(*out, guard{e, pos})
+				}
+				recorded := func(gs []guard) bool {
+					for _, g := range gs {
+						be, ok := ast.Unparen(g.cond).(*ast.BinaryExpr)
+						if !ok || core.FieldOf(info, be.X) != errF || !isNilIdent(info, be.Y) {
+							continue
+						}
+						if (be.Op == token.NEQ && g.pos) || (be.Op == token.EQL && !g.pos) {
+							return true
+						}
+					}
+					return false
+				}
+				stored := core.NewFlow(f).MustSeen(false, isStore, nil)
+				f.OwnNodes(func(x ast.Node) bool {
+					switch x := x.(type) {
+					case *ast.ReturnStmt:
+						if stored[x] {
+							return true
+						}
+						n++
+						key := f.Name + "|message dropped by early return"
+						if recorded(guardsOf(c.P, x, nil)) {
+							rr.OK(f, key, x.Pos(), "already-recorded", "returns without recording only when l.err != nil")
+						} else {
+							rr.Bad(f, key, x.Pos(), "the reported message is discarded on a path where no error is known to be recorded: the parse can end with a nil error although the parser rejected the input")
+						}
+					case *ast.IfStmt:
+						hasStore := false
+						for _, st := range x.Body.List {
+							if isStore(st) {
+								hasStore = true
+							}
+							if es, ok := st.(*ast.ExprStmt); ok && isStore(es.X) {
+								hasStore = true
+							}
+						}
+						if !hasStore || x.Else != nil {
+							return true
+						}
+						n++
+						key := f.Name + "|message dropped by conditional store"
+						var gs []guard
+						atoms(x.Cond, false, &gs)
+						gs = append(gs, guardsOf(c.P, x, nil)...)
+						if recorded(gs) {
+							rr.OK(f, key, x.Pos(), "already-recorded", "the store is skipped only when l.err != nil")
+						} else {
+							rr.Bad(f, key, x.Pos(), "the store of the new error can be skipped while l.err may be nil")
+						}
+					}
+					return true
+				})
+				// a helper's first store must be reachable with an empty slot: some store is guarded by `err == nil` or unguarded
+				if f != top {
+					okEmpty := false
+					f.OwnNodes(func(x ast.Node) bool {
+						as, ok := x.(*ast.AssignStmt)
+						if !ok || !isStore(as) {
+							return true
+						}
+						gs := guardsOf(c.P, as, nil)
+						if len(gs) == 0 {
+							okEmpty = true
+						}
+						for _, g := range gs {
+							if be, ok := ast.Unparen(g.cond).(*ast.BinaryExpr); ok && core.FieldOf(info, be.X) == errF && isNilIdent(info, be.Y) && be.Op == token.EQL && g.pos && len(gs) == 1 {
+								okEmpty = true
+							}
+						}
+						return true
+					})
+					n++
+					key := f.Name + "|records into an empty slot"
+					if okEmpty {
+						rr.OK(f, key, f.Pos(), "empty-slot", "with no error recorded the new one is always stored")
+					} else {
+						rr.Bad(f, key, f.Pos(), "no store is performed under `l.err == nil` alone: a first error may be lost")
+					}
+				}
+			}
 			if n == 0 {
-				rr.OKp(c.P, f.Name+"|unconditional store", 0, "always", "every call records its message")
+				rr.OKp(c.P, top.Name+"|unconditional store", 0, "always", "every call records its message")
 			}
 		}}
 }
@@ -1267,6 +1410,11 @@ func ruleCC10(pkgs ...string) Rule {
 							rr.OK(f, key, u.Pos(), "alternative", "alternative to a blocking communication")
 						case dflt != nil && len(cc.Body) == 0 && closesOnly(info, dflt, cancel):
 							rr.OK(f, key, u.Pos(), "close-once", "close-once idiom")
+						case dflt != nil && len(dflt.Body) == 0 && sameBailoutFollows(c.P, info, sel, cc, cancel):
+							// the pre-test of the hand-over: once cancel is closed the parser has stopped
+							// receiving (or the lexer failed itself), so the following select could only
+							// take its cancel arm - or, with both ready, a random one (CC12)
+							rr.OK(f, key, u.Pos(), "pre-test", "tests cancel immediately before a select whose cancel arm does the same thing")
 						case dflt == nil:
 							rr.OK(f, key, u.Pos(), "blocking", "a blocking receive")
 						default:
@@ -1515,4 +1663,31 @@ func localDef(f *core.Func, info *types.Info, obj types.Object) ast.Expr {
 		return true
 	})
 	return out
+}
+
+// sameBailoutFollows reports whether the statement after the polling select
+// is a select with a receive from the same channel whose body equals the
+// poll's receive arm (so the poll only removes the random choice between two
+// ready cases, it adds no new behaviour).
+func sameBailoutFollows(p *core.Program, info *types.Info, poll *ast.SelectStmt, arm *ast.CommClause, ch *types.Var) bool {
+	blk, ok := p.Parent(poll).(*ast.BlockStmt)
+	if !ok {
+		return false
+	}
+	i := stmtIndex(p, blk.List, poll)
+	if i < 0 || i+1 >= len(blk.List) {
+		return false
+	}
+	next, ok := blk.List[i+1].(*ast.SelectStmt)
+	if !ok {
+		return false
+	}
+	for _, st := range next.Body.List {
+		cc := st.(*ast.CommClause)
+		// both arms leave the function by panicking or returning
+		if cc.Comm != nil && recvFrom(info, cc.Comm, ch) && endsInPanicOrReturn(info, cc.Body) && endsInPanicOrReturn(info, arm.Body) {
+			return true
+		}
+	}
+	return false
 }
